@@ -21,6 +21,8 @@
  */
 
 #include <cctype>
+#include <cerrno>
+#include <limits>
 #include <cstdarg>
 #include <cstdio>
 #include <cstdlib>
@@ -248,7 +250,14 @@ void FormatRST(fmt::Writer &w,
 
 int OptionHelper<int>::Parse(const char *&s, bool) {
   char *end = 0;
+  errno = 0;
   long value = std::strtol(s, &end, 10);
+  if (ERANGE == errno ||
+      value < std::numeric_limits<int>::min() ||
+      value > std::numeric_limits<int>::max())
+    throw OptionError(fmt::format(
+        "Integer option value \"{}\" is out of range",
+        std::string(s, end - s)));
   s = end;
   return value;
 }
